@@ -30,8 +30,9 @@
        idempotent.  Crash = the import is abandoned after any page ("abort": the call
        fails, the process lives on; "restart": close and reopen; a power-loss image is the
        same state because every page is synced).
-     * DiscardRestoreChannels removes a channel in two durable steps: all rows with their
-       indexes (DiscardRows), then the whole partition and the catalog entry (DiscardMeta).
+     * DiscardRestoreChannels removes a channel in durable steps: the rows with their indexes
+       from the front in batches (DiscardRows), then the whole partition and the catalog
+       entry (DiscardMeta).
      * Probes on the target: Touch (open a channel store, load its log end, close it: the
        registry keeps that log end warm), Append (a non-exact leader append of one record
        whose idempotency key is that of row k), Reexport (cut recomputed from the target as
@@ -350,15 +351,23 @@ Restart ==
 -------------------------------------------------------------------------------
 \* Cleanup of the target.
 
-\* A discard call that lost power between its two durable steps (the store is reopened, so
-\* nothing is warm); DiscardMeta is what the repeated call still has to do for that channel.
-DiscardRows(c) ==
+\* A discard call that lost power before it finished (the store is reopened, so nothing is
+\* warm).  Rows are deleted from the front in batches of the install size: b = 0 means every
+\* row is gone (appended ones included), otherwise the restored rows up to b are.  DiscardMeta
+\* is what the repeated call still has to do for a channel without rows.
+DiscardRows(c, b) ==
   /\ Msg /\ imp.st = "idle" /\ exp.ok
-  /\ tMeta[c] /\ (tRows[c] # {} \/ tApp[c] # <<>>)
-  /\ tRows' = [tRows EXCEPT ![c] = {}]
-  /\ tApp'  = [tApp EXCEPT ![c] = <<>>]
+  /\ tMeta[c]
+  /\ IF b = 0
+       THEN /\ tRows[c] # {} \/ tApp[c] # <<>>
+            /\ tRows' = [tRows EXCEPT ![c] = {}]
+            /\ tApp'  = [tApp EXCEPT ![c] = <<>>]
+       ELSE /\ \E r \in tRows[c] : r <= b
+            /\ tRows' = [tRows EXCEPT ![c] = {r \in @ : r > b}]
+            /\ tRows'[c] # {} \/ tApp[c] # <<>>
+            /\ tApp'  = tApp
   /\ warm'  = [x \in Chans |-> -1]
-  /\ ev' = [a |-> "DiscardRows", c |-> c, res |-> [ok |-> TRUE]]
+  /\ ev' = [a |-> "DiscardRows", c |-> c, through |-> b, res |-> [ok |-> TRUE]]
   /\ UNCHANGED <<srcVars, exp, tMeta, mTgt, mTRt, mOther, imp, attempts, appends, cfg>>
 
 DiscardMeta(c) ==
@@ -454,7 +463,7 @@ Next ==
   \/ ImportPage
   \/ \E kind \in {"abort", "restart"} : Crash(kind)
   \/ Restart
-  \/ \E c \in Chans : DiscardRows(c)
+  \/ \E c \in Chans, b \in 0..MaxLen : DiscardRows(c, b)
   \/ \E c \in Chans : DiscardMeta(c)
   \/ Discard
   \/ \E c \in Chans : Touch(c)
